@@ -84,6 +84,13 @@ def entrypoints(out, zv):
         {"module": "EntryPoints.tla", "cfg": "EntryPointsPinned.cfg", "expect": "violation", "timeout": 300},
         {"module": "EntryPoints.tla", "cfg": "EntryPointsPinnedEvalFn.cfg", "expect": "violation", "timeout": 300},
     ])
+    # the two invariants TLC checks for MaxChunks = 4 are proved for every bound by the proof system
+    # (EntryPointsProof.tla); a fact about the specification, recorded, never a verdict
+    pr = vlib.tlapm("EntryPointsProof.tla") if vlib.tier() == "thorough" or os.environ.get("VERIF_PROOFS") else None
+    out.extra["entry_points_proof"] = ({"module": "EntryPointsProof.tla", "theorem": "Spec => [](PcInRange /\\ PendingIsTail)",
+                                        "obligations_proved": pr[0], "obligations": pr[1]} if pr else "checked in the thorough tier (or with VERIF_PROOFS=1): 38 obligations")
+    if pr:
+        vlib.log("tlapm EntryPointsProof.tla: %d of %d obligations proved" % pr)
     tr = os.path.join(vlib.scratch(), "entry.ndjson")
     vlib.run_zv(zv, "entry", [], tr)
     cases, v = flow.validate(out, "entry", "EntryTrace.tla", "EntryTrace.cfg", tr, zv)
